@@ -397,6 +397,31 @@ class Env:
             self.ev(k="exc", where="timer", name=type(exc).__name__, fn=_innermost(exc))
         self.end_step()
 
+    def shift_sseq(self, tok, value):
+        """C17: continue the (still unused) user-data stream sequence numbers of a freshly
+        opened ordered channel at `value` on both ends - as if `value` messages had gone
+        before.  Only applied at a quiet point (nothing queued or in flight on the stream)."""
+        c = self.chan[tok]
+        for side in "AB":
+            ch = c[side]
+            if ch is None or ch.id is None:
+                return
+        sid = c["A"].id
+        for side in "AB":
+            t = self.ep[side]
+            if any(x.stream_id == sid for x in list(t._sent_queue) + list(t._outbound_queue)):
+                return
+            st = t._inbound_streams.get(sid)
+            if st is not None and st.reassembly:
+                return
+        for side in "AB":
+            t = self.ep[side]
+            peer = self.ep[self.peer(side)]
+            cur = t._outbound_stream_seq.get(sid, 0)
+            t._outbound_stream_seq[sid] = (cur + value) % 65536
+            st = peer._get_inbound_stream(sid)
+            st.sequence_number = (st.sequence_number + value) % 65536
+
     def advance(self, dt):
         self.loop.wall += dt
 
